@@ -632,8 +632,11 @@ class World:
             if (desc.get("post_copy") and c["name"] == "M") or (desc.get("post_copy") == "nested" and c["name"] in ("U", "N")):
                 world = self
 
-                def __post_copy__(self, _name=c["name"]):
+                def __post_copy__(self, _name=c["name"], _counting=desc.get("post_copy") == "counting"):
                     world.tick("post_copy", _name)
+                    if _counting:
+                        # the documented use of the hook: keep a private tally on the copy
+                        self.copy_count = getattr(self, "copy_count", 0) + 1
 
                 ns["__post_copy__"] = __post_copy__
             if c.get("post_init_deepcopy"):
